@@ -69,8 +69,15 @@ def random_exec(rng, nops, big):
                     p = rng.choice(free); m = rng.choice([1, 2, 3, 4, 4, 5, 6])
                     L.append("open %d %d %d" % (o, p, m)); objs[o] = dict(open=True, path=p, mode=m, pos=size[p] if m == 5 else 0, lastio=None)
                     if m in (2, 4): size[p] = 0
+            elif r < 0.6:
+                busy = {v["path"] for v in objs.values() if v.get("open")}
+                free = [p for p in (1, 2) if p not in busy]
+                if free:                                                  # constructed again in place
+                    p = rng.choice(free); m = rng.choice([1, 2, 3, 4, 5, 6])
+                    L.append("construct %d %d %d" % (o, p, m)); objs[o] = dict(open=True, path=p, mode=m, pos=size[p] if m == 5 else 0, lastio=None)
+                    if m in (2, 4): size[p] = 0
             elif r < 0.9:
-                L.append(rng.choice(["read %d 3", "write %d 1 3", "tell %d", "eof %d", "flush %d", "close %d", "seek %d 0 0", "withend %d", "print %d 5"]) % o)
+                L.append(rng.choice(["read %d 3", "write %d 1 3", "tell %d", "eof %d", "flush %d", "close %d", "seek %d 0 0", "withend %d", "print %d 5", "destruct %d"]) % o)
             else:
                 L.append("del %d" % o); del objs[o]
             continue
@@ -94,6 +101,8 @@ def random_exec(rng, nops, big):
             v = rng.choice([0, 7, 42, 1000, 65535, 2147483647])
             if m in (5, 6): h["pos"] = size[p]
             L.append("print %d %d" % (o, v)); h["pos"] += len(str(v)) + 1; size[p] = max(size[p], h["pos"]); h["lastio"] = "write"
+        elif r < 0.87:
+            L.append("destruct %d" % o); h["open"] = False             # the object stays, closed
         elif r < 0.90:
             L.append("close %d" % o); h["open"] = False
         elif r < 0.94:
